@@ -30,3 +30,16 @@ func verifKeys[V any](m map[string]V) []string {
 	sort.Strings(ks)
 	return ks
 }
+
+// VerifYieldHook, when non-nil, is called before every mutex acquisition of
+// conn.go, handler.go and listener.go (the call sites are inserted at check time
+// by /verif/tools/instrument.py); the harness uses it to park the calling
+// goroutine so that another one can run in between. With the hook nil it is a
+// no-op.
+var VerifYieldHook func(site string)
+
+func verifYield(site string) {
+	if VerifYieldHook != nil {
+		VerifYieldHook(site)
+	}
+}
